@@ -37,3 +37,15 @@ impl<T> FftCache<T> {
         };
     }
 }
+
+// Verification hook H1 (only compiled with `--cfg rustfft_verif`). Add-only.
+#[cfg(rustfft_verif)]
+impl<T> FftCache<T> {
+    pub fn verif_keys(&self) -> (Vec<usize>, Vec<usize>) {
+        let mut f: Vec<usize> = self.forward_cache.keys().copied().collect();
+        let mut i: Vec<usize> = self.inverse_cache.keys().copied().collect();
+        f.sort();
+        i.sort();
+        (f, i)
+    }
+}
